@@ -28,6 +28,9 @@ pub struct Cmd {
 #[derive(Clone, Debug, Serialize, Deserialize)]
 pub struct Plan {
   pub seed: u64,
+  /// the reader of our stdout went away before we print anything (EPIPE on every write)
+  #[serde(default)]
+  pub stdout_closed: bool,
   pub k: usize,
   pub policy: Policy,
   pub faults: Vec<Fault>,
@@ -221,7 +224,7 @@ pub fn eval_plan(env: &Env, w: &CliWorld, cmd: &Cmd, plan: &Plan, baselines: &mu
     faults: plan.faults.clone(),
     hash_seed: env.hash_seed,
   };
-  let out = cli_run::run_cli(&env.root, &argv(cmd, plan.k, None), env.hash_seed, Some(cfg));
+  let out = cli_run::run_cli_opts(&env.root, &argv(cmd, plan.k, None), env.hash_seed, Some(cfg), plan.stdout_closed);
   let sched = out.sched.clone().ok_or("no scheduler result")?;
   let mut po = PlanOutcome { violation: None, sched: sched.clone(), observed: None };
   let viol = |c: &str, d: String| Some((c.to_string(), d));
@@ -238,6 +241,13 @@ pub fn eval_plan(env: &Env, w: &CliWorld, cmd: &Cmd, plan: &Plan, baselines: &mu
   }
   if !sched.panics.is_empty() {
     po.violation = viol("PANIC", format!("a producer thread panicked: {}", sched.panics.join("; ")));
+    return Ok(po);
+  }
+  if plan.stdout_closed {
+    // only termination and absence of panics are asserted: the consumer fails on its first
+    // write, drops the receiver, and every producer must wind down (send fails -> Quit)
+    // (whether the command reports the EPIPE is not asserted: std's stdout buffers small
+    // outputs and swallows the error of the final flush, and the property does not speak of it)
     return Ok(po);
   }
   // 2. well-formed output
@@ -403,7 +413,8 @@ pub fn gen_plan(seed: u64, w: &CliWorld, tier: &str) -> Plan {
     }
   }
   let _ = tier;
-  Plan { seed, k, policy, faults, forced: None, forced_picks: None }
+  let stdout_closed = fr.chance(0.04);
+  Plan { seed, stdout_closed, k, policy, faults, forced: None, forced_picks: None }
 }
 
 fn shape_of(cmd: &Cmd, plan: &Plan, sr: &SchedResult) -> String {
@@ -561,6 +572,9 @@ impl Simulation for C17Sim {
       r.count(if plan.faults.is_empty() { "policy:fault-free" } else { "policy:fault-injecting" });
       for f in &po.sched.fired {
         r.count(&format!("fault:{}", f.kind));
+      }
+      if plan.stdout_closed {
+        r.count("fault:stdout-closed");
       }
       for f in &w.files {
         if f.kind != "normal" && po.sched.discovered.contains(&f.path) {
